@@ -93,6 +93,9 @@ func (e Float64Engine) checkThree(a, b Tensor, reuse Tensor) error {
 	if a.Dtype() != b.Dtype() || (reuse != nil && b.Dtype() != reuse.Dtype()) {
 		return errors.Errorf("Expected a, b and reuse to have the same Dtype. Got %v, %v and %v instead", a.Dtype(), b.Dtype(), reuse.Dtype())
 	}
+	if !a.Shape().Eq(b.Shape()) {
+		return errors.Errorf(shapeMismatch, b.Shape(), a.Shape())
+	}
 	return nil
 }
 
